@@ -16,6 +16,8 @@ structure Obs where
   log : List Ev
   ioDict : List (String × Name)       -- names given to automatically created communicators (a naming table only)
   written : List (Name × String × Int) := []   -- (module, parameter, value) of every call of a `write_` method, in order
+  unready : List (Name × String × Name) := []  -- (user, attachment, module): the module object a user's hook was handed
+                                               -- had not completed earlyInit / initModule / get_module at that moment
 deriving Repr
 
 /-! ## the attachment graph of a configuration -/
@@ -146,6 +148,13 @@ def AttachedReady (log : List Ev) : Prop :=
 instance (log : List Ev) : Decidable (AttachedReady log) := by
   unfold AttachedReady; infer_instance
 
+/-- "… is fully initialised before its user sees it", on the objects: whatever the log says, no hook of a user was ever
+handed a module object whose own initialisation was not complete (flags `earlyInitDone`, `initModuleDone`,
+`_isinitialized` read at the moment of the access) -/
+def SeenInitialised (o : Obs) : Prop := o.unready = []
+
+instance (o : Obs) : Decidable (SeenInitialised o) := by unfold SeenInitialised; infer_instance
+
 def isStart : Ev → Bool
   | .start _ => true
   | _ => false
@@ -269,7 +278,7 @@ def judge (cfg : Cfg) (o : Obs) : List String :=
   (if cleanB cfg o.ioDict && !(up && decide (∀ n ∈ names u, n ∈ o.modules) && decide (InitOrderOnce o.modules o.log))
      then ["init_order_once"] else []) ++
   (if decide (HooksAtMostOnce o.log) then [] else ["init_at_most_once"]) ++
-  (if decide (AttachedReady o.log) then [] else ["attached_ready"]) ++
+  (if decide (AttachedReady o.log) && decide (SeenInitialised o) then [] else ["attached_ready"]) ++
   (if badAttachmentB cfg o.ioDict && up then ["bad_attachment_reported"] else []) ++
   (if decide (NoHalfStart o) then [] else ["no_half_start"]) ++
   (if up && !decide (WritesBeforeFirstPoll (u.filter (fun c => o.modules.contains c.name)) o.log)
